@@ -40,7 +40,7 @@ MOVE_PRIMS = {
     "reshape": (), "transpose": (), "slice": (), "squeeze": (), "expand_dims": (), "concatenate": (),
     "pad": (), "broadcast_in_dim": (), "rev": (), "unstack": (), "split": (), "copy": (), "copy_p": (),
     "gather": (1,), "dynamic_slice": "rest1", "dynamic_update_slice": "rest2", "select_n": (0,),
-    "scatter": (1,), "real": (), "reduce_precision": (), "optimization_barrier": (),
+    "scatter": (1,), "stack": (), "real": (), "reduce_precision": (), "optimization_barrier": (),
 }
 
 
